@@ -19,7 +19,6 @@ ASSUME = ["tskit: tables.sort / build_index / compute_mutation_parents / Tree AP
           "node ids of edges and mutations are in range (tskit validates this)",
           "numba compiles the kernels as written"]
 
-ZERO_SIG = "split:zero-edges"
 
 
 # ---------------------------------------------------------------- implementation side
@@ -197,15 +196,11 @@ def with_json_metadata(ts):
 
 def make_item(rng):
     ts, kind = S.any_ts(rng, diploid=rng.random() < 0.2, mutations=True, max_edges=100)
-    while ts.num_edges == 0:
-        ts, kind = S.any_ts(rng, diploid=False, mutations=True, max_edges=100)
     r = rng.random()
     if r < 0.35 and int(ts.sequence_length) >= 3:
         ts = S.delete_interval(rng, ts, flank="mid")
         kind += "+midgap"
         ts = S.add_mutations(rng, ts, k=rng.randint(1, 5))
-    if ts.num_edges == 0:
-        return make_item(rng)
     jsonmd = rng.random() < 0.3
     if jsonmd:
         ts = with_json_metadata(ts)
@@ -281,23 +276,15 @@ def run(ctx, model_ok=True):
     logging.disable(logging.WARNING)
     n = ctx.n(170, 2000)
     items = [make_item(ctx.rng) for _ in range(n)]
+    # corpus: a valid input WITHOUT edges (raised IndexError before repair 3af34f9); ordinary case now
+    zt = zero_edge_ts()
+    items.insert(0, (zt, S.is_sample_list(zt), "corpus:zero-edges", False))
     models = run_model(ctx, [(ts, ex) for ts, ex, kind, j in items]) if model_ok else [None] * len(items)
     for (ts, excluded, kind, jsonmd), model in zip(items, models):
         split_any = check_one(ctx, ts, excluded, kind, jsonmd, model)
         ctx.case({"kind": kind, "summary": S.summary(ts), "edges": S.describe(ts)["edges"][:6],
                   "mutations": S.describe(ts)["mutations"][:6], "json_metadata": jsonmd},
                  nontrivial=split_any, kind=kind.split("+")[0] + ("/split" if split_any else "/nosplit"))
-    # a valid input without edges (pure-Python tier only: under the JIT the kernel reads
-    # remove_position[-1] of an empty array without a bounds check)
-    if ctx.tier == "quick":
-        ts = zero_edge_ts()
-        try:
-            impl_split(ts)
-        except IndexError as e:
-            ctx.oracle_fail(ZERO_SIG + ":IndexError", "split_disjoint_nodes on a tree sequence without edges: %r" % e,
-                            {"tables": S.describe(ts), "kind": "zero-edges"})
-        except Exception as e:
-            ctx.oracle_fail("split:raised:%s" % type(e).__name__, repr(e)[:300], {"tables": S.describe(ts)})
 
 
 def search(ctx):
@@ -315,11 +302,5 @@ def replay(ctx, data):
     if case.get("json_metadata"):
         ts = with_json_metadata(ts)
     before = len(ctx.oracle_fails)
-    if ts.num_edges == 0:
-        try:
-            impl_split(ts)
-        except Exception:
-            return False
-        return True
     check_one(ctx, ts, S.is_sample_list(ts), "replay", bool(case.get("json_metadata")), None)
     return len(ctx.oracle_fails) == before
